@@ -99,6 +99,17 @@ CLAIMED = {
              "interpreter that a started Task equals its eager twin and that cancellation runs no value callback, and every "
              "program is executed on the real Task API (nothing may run before the start).",
         note=SEQ_NOTE, design="7/C12", technique="TLA+ reference interpreter; TLC-enumerated programs replayed on the code"),
+    "C16": dict(
+        text="WaitGroup.tla models the count (AtomicCounter with the Set-on-zero deleter), the event's list head (TryAdd push "
+             "vs the exchange of Set), the three kinds of registered jobs (stack Waiter, heap TimedWaiter with two owners, "
+             "coroutine promise / awaiter) and Attach / Consume, one action per yaclib_std operation; TLC checks release only "
+             "at zero, exactly once, before or after, validity of attached and single release of consumed futures, the "
+             "two-owner protocol of the timed waiter and data-race freedom for sources {Done, attached, consumed, bare Set} x "
+             "waiters {Wait, WaitFor, co_await inline / sticky / on}; schedules of the real code are enumerated under the "
+             "controlled fiber scheduler (the deadline is a controller choice) and every recorded execution is validated "
+             "against the specification by TLC.",
+        note=CONC_NOTE + "; at most one timed waiter per scenario; no Reset", design="7/C16",
+        technique="TLA+ spec + TLC model checking; schedule enumeration on the code with TLC trace validation"),
     "C17": dict(
         text="FiberSched.tla defines every scheduling decision of the fiber scheduler as a function of (list contents, random "
              "draw, pick width) and TLC checks the function is total; four client programs (thread pool + WhenAll, strand, "
@@ -106,7 +117,7 @@ CLAIMED = {
              "recorded draw / pick / resumption / injected yield is validated against FiberSched_Trace by TLC, and the "
              "normalised decision traces and results are compared pairwise: two fresh processes, the same process after "
              "SetSeed + injector reset, and fresh processes restored from every recorded (random-count, injector-state) pair.",
-        note="grid of seeds x frequencies {2,3,4,5,16} x widths {1,2,3,10}; fiber ids normalised by first appearance; "
+        note="grid of seeds x frequencies {1,2,3,4,5,16} x widths {1,2,3,10} x sleep times {1,7,200}; fiber ids normalised by first appearance; "
              "trusted: TLC, observation hooks, harness/sc_repro.cpp", design="7/C17",
         technique="TLA+ decision function + TLC trace validation of recorded scheduler decisions; differential re-execution"),
     "C18": dict(
